@@ -10,7 +10,7 @@ ap = argparse.ArgumentParser()
 ap.add_argument("--budget", default="25"); ap.add_argument("--par", type=int, default=3); ap.add_argument("--workers", default="5")
 ap.add_argument("--update", action="store_true"); ap.add_argument("ids", nargs="*")
 a = ap.parse_args()
-ids = a.ids or sorted(d for d in os.listdir("/verif/seeded") if os.path.isdir("/verif/seeded/" + d))
+ids = a.ids or sorted(d for d in os.listdir("/verif/seeded") if os.path.exists("/verif/seeded/" + d + "/meta.json"))
 def one(i):
     d = "/verif/seeded/" + i
     meta = json.load(open(d + "/meta.json"))
